@@ -65,6 +65,7 @@ static Str case_string(Ctx& c, uint64_t idx, const char** gen) {
     idx -= g.nEnumIp;
     if (idx < g.nDegen) { *gen = "degenerate"; return gdegenerate_case(idx); }
     Rng& r = c.rng;
+    if (r.chance(1, 400)) { *gen = "bom"; UriGenOpts o; return Str("\xEF\xBB\xBF") + (r.coin() ? gen_uri(r, o) : Str()); }       // UTF-8 byte order mark in front
     switch (r.below(8)) {
     case 0: *gen = "walk"; return gwalk(r, r.chance(1, 50) ? 2000 : 60, false);
     case 1: *gen = "walk-complete"; return gwalk(r, r.chance(1, 50) ? 2000 : 60, true);
@@ -153,7 +154,9 @@ template <class X> struct ParseMon {
         bool oor = false;
         if (sizeof(Char) > 1 && !s.empty() && c.rng.chance(1, 8)) {
             size_t p = c.rng.below((uint32_t)s.size()); uint32_t base = (unsigned char)s[p]; uint32_t v;
-            switch (c.rng.below(4)) { case 0: v = 0x100u | base; break; case 1: v = 0x10000u | base; break; case 2: v = 0x80000000u | base; break; default: v = 0xFFFFFF00u | base; break; }
+            switch (c.rng.below(6)) { case 0: v = 0x100u | base; break; case 1: v = 0x10000u | base; break; case 2: v = 0x80000000u | base; break; case 3: v = 0xFFFFFF00u | base; break;
+                case 4: p = 0; v = 0xFEFFu; break;                 // a byte order mark in front: not part of any URI, on no entry point
+                default: { static const uint32_t U[] = {0x00E9u + 0x100u, 0x2028u, 0x3002u, 0xFF0Fu, 0xFF1Au, 0x0660u, 0x212Au}; v = U[c.rng.below(7)]; } break; }   // letters, digits, dots, slashes and colons of other scripts
             cps[p] = v; w[p] = (Char)v; oor = true; c.count("w_out_of_range_cases");
         }
         size_t o = 0; bool acc = dfa_uriref(cps.data(), cps.size(), &o);
